@@ -1,3 +1,4 @@
+// FAMILY: C09
 //! C09: a distributed answer equals the single-node answer.
 //!
 //! One case = one sqlgen statement over one generated catalog, written as Parquet under a chosen layout, answered
@@ -195,39 +196,69 @@ pub mod cluster {
         }, 60)
     }
 
-    /// neutraliser of finding C09-F5 (merge stage inherits C03-F1): the partial rows of every active shard (REAL
-    /// `execute_fragment` of the coordinator's partial statement) merged by the coordinator's final statement through the
-    /// public pipeline with the optimizer rule `GroupKeyReduction` left out
-    pub fn run_merge_without(env: &Env, sql: &str, n: usize, rule: &str) -> Value {
-        use crate::fams::fam_sql::sqlgen::{exec::{run, ExecCfg, Rules}, ColTy, Val};
+    /// `sql` over `ctx` through the public pipeline (parse → Binder → Optimizer::with_rules → PhysicalPlanner → every
+    /// partition) with the production rule list minus `without` — what `ExecutionContext::sql` does, one rule left out
+    pub async fn sql_without(ctx: &ExecutionContext, sql: &str, without: &[String]) -> Result<Vec<arrow::record_batch::RecordBatch>, QueryError> {
+        use futures::TryStreamExt;
+        use query_engine::execution::{create_memory_pool, ExecutionConfig};
+        use query_engine::optimizer::Optimizer;
+        use query_engine::physical::PhysicalPlanner;
+        use query_engine::planner::{Binder, InMemoryCatalog, PlanSchema, SchemaField};
+        let stmt = query_engine::parser::parse_sql(sql)?;
+        let mut icat = InMemoryCatalog::new();
+        let mut provs = vec![];
+        for name in ctx.table_names() { if let Some(p) = ctx.table_provider(&name) { provs.push((name, p)); } }
+        for (n, p) in &provs {
+            icat.register_table(n.clone(), PlanSchema::new(p.schema().fields().iter().map(|f| SchemaField::new(f.name().clone(), f.data_type().clone()).with_nullable(f.is_nullable())).collect()));
+        }
+        let logical = Binder::new(&icat).bind(&stmt)?;
+        let mut stats = std::collections::HashMap::new();
+        for (n, p) in &provs { if let Some(s) = p.statistics() { stats.insert(n.clone(), s); } }
+        let rules: Vec<_> = crate::fams::fam_sql::sqlgen::exec::production_rules().into_iter().filter(|r| !without.iter().any(|w| w == r.name())).collect();
+        let opt = Optimizer::with_rules(rules);
+        let opt = if stats.is_empty() { opt } else { opt.with_table_statistics(stats) };
+        let optimized = opt.optimize(logical)?;
+        let config = ExecutionConfig::default();
+        let pool = create_memory_pool(config.memory_limit);
+        let mut planner = PhysicalPlanner::with_config(pool, config);
+        for (n, p) in &provs { planner.register_table(n.clone(), p.clone()); }
+        planner.enable_subquery_execution();
+        let physical = planner.create_physical_plan(&optimized)?;
+        let mut all = vec![];
+        for p in 0..physical.output_partitions().max(1) {
+            let stream = physical.execute(p).await?;
+            let bs: Vec<arrow::record_batch::RecordBatch> = stream.try_collect().await?;
+            all.extend(bs);
+        }
+        Ok(all)
+    }
+
+    /// neutraliser of finding C09-F5 (a worker's partial GROUP BY inherits C03-F1 through the shard's scaled statistics):
+    /// every active shard answers the coordinator's partial statement over ITS shard context (`shard_context`) with the
+    /// optimizer rule(s) `without` left out; the coordinator's merge statement then runs unchanged over the partial rows
+    pub fn run_two_phase_without(env: &Env, sql: &str, n: usize, without: &str) -> Value {
+        use query_engine::distributed::coordinator::shard_context;
         let plan = match plan_distributed(&env.base, sql) { Ok(p) => p, Err(e) => return err_json(&e) };
         let Some(final_sql) = plan.final_sql.clone() else { return json!({"err": "harness", "msg": "no merge statement"}) };
         let set = match splits_of(&env.base, &plan.table, n) { Ok(s) => s, Err(e) => return err_json(&e) };
         let a = assign_lpt(&set, n);
-        let mut batches: Vec<arrow::record_batch::RecordBatch> = vec![];
-        for i in (0..n).filter(|&i| a.node_splits[i] > 0) {
-            let req = FragmentRequest { sql: plan.partial_sql.clone(), table: plan.table.clone(), shard_index: i, shard_count: n, splits_digest: set.digest() };
-            let peer = env.peer.clone();
-            let got = guarded_block(async move { match execute_fragment(&peer, &req).await {
-                Ok((r, _)) => match encode_ipc(&r.schema, &r.batches) { Ok(b) => json!({"bytes": crate::common::bytes_json(&b)}), Err(e) => err_json(&e) },
-                Err(e) => err_json(&e) } }, 60);
-            let Some(b) = got.get("bytes") else { return got };
-            match query_engine::distributed::coordinator::decode_ipc(&crate::common::json_bytes(b)) { Ok(bs) => batches.extend(bs), Err(e) => return err_json(&e) }
-        }
-        let Some(first) = batches.first() else { return json!({"err": "harness", "msg": "no partial batch"}) };
-        let mut cols = vec![];
-        for f in first.schema().fields() {
-            let cty = match f.data_type() {
-                arrow::datatypes::DataType::Int64 => ColTy::I64, arrow::datatypes::DataType::Int32 => ColTy::I32, arrow::datatypes::DataType::Float64 => ColTy::F64,
-                arrow::datatypes::DataType::Utf8 => ColTy::Str, arrow::datatypes::DataType::Date32 => ColTy::Date, arrow::datatypes::DataType::Boolean => ColTy::Bool,
-                other => return json!({"err": "harness", "msg": format!("partial column type {other}")}) };
-            cols.push(ColSpec { name: f.name().clone(), cty, null_pct: 50, boundary: false, special: false, unique: false });
-        }
-        let mut rows: Vec<Vec<Val>> = vec![]; let mut cuts = vec![];
-        for b in &batches { let before = rows.len(); batch_rows(b, &mut rows); if rows.len() > before { cuts.push(rows.len() - before); } }
-        let cat = Catalog { tables: vec![TableSpec { name: "qe_dist_partial".into(), cols, rows, cuts }] };
-        let rules = if rule == "ALL" { Rules::None } else if rule == "NONE" { Rules::Default } else { Rules::Without(rule.split('/').map(|s| s.to_string()).collect()) };
-        run(&cat, &final_sql, &ExecCfg::mem_batches().with_rules(rules))
+        let rules: Vec<String> = if without == "NONE" { vec![] } else { without.split('/').map(|s| s.to_string()).collect() };
+        guarded_block(async {
+            let mut batches: Vec<arrow::record_batch::RecordBatch> = vec![];
+            let active: Vec<usize> = (0..n).filter(|&i| a.node_splits[i] > 0).collect();
+            let shards: Vec<usize> = if active.is_empty() { vec![0] } else { active };
+            for i in shards {
+                let (ctx, _) = match shard_context(&env.peer, &plan.table, &set, &a, i) { Ok(x) => x, Err(e) => return err_json(&e) };
+                match sql_without(&ctx, &plan.partial_sql, &rules).await { Ok(bs) => batches.extend(bs), Err(e) => return err_json(&e) }
+            }
+            let Some(first) = batches.first() else { return json!({"err": "harness", "msg": "no partial batch"}) };
+            let schema = Arc::new(arrow::datatypes::Schema::new(first.schema().fields().iter().map(|f| f.as_ref().clone().with_nullable(true)).collect::<Vec<_>>()));
+            let mut unified = vec![];
+            for b in &batches { match arrow::record_batch::RecordBatch::try_new(schema.clone(), b.columns().to_vec()) { Ok(x) => unified.push(x), Err(e) => return json!({"err": "harness", "msg": e.to_string()}) } }
+            let mut mctx = ExecutionContext::new();
+            mctx.register_table("qe_dist_partial", schema, unified);
+            match mctx.sql(&final_sql).await { Ok(r) => batches_json(&r.batches), Err(e) => err_json(&e) }
+        }, 60)
     }
 
     /// the plan the coordinator builds for the statement: scatter (Concat / TwoPhase / TopN over one table) or gather
@@ -308,7 +339,7 @@ pub fn run_case(case: &Value) -> Value {
                 mem1 = Some(crate::fams::fam_sql::sqlgen::exec::run(&cat, sql, &crate::fams::fam_sql::sqlgen::exec::ExecCfg::mem_single()));
             }
             if differs && info["shape"] == "TwoPhase" && out.get("ok").is_some() {
-                merge.insert(name.into(), run_merge_without(&env, sql, n, "GroupKeyReduction"));
+                merge.insert(name.into(), run_two_phase_without(&env, sql, n, "GroupKeyReduction"));
             }
         }
         runs.insert(name.into(), out);
@@ -317,7 +348,7 @@ pub fn run_case(case: &Value) -> Value {
     let mut o = json!({"runs": Value::Object(runs), "dist": Value::Object(dist)});
     if !neutral.is_empty() { o["neutral_noself"] = Value::Object(neutral); }
     if !full.is_empty() { o["neutral_fullgather"] = Value::Object(full); }
-    if !merge.is_empty() { o["neutral_merge_nogkr"] = Value::Object(merge); }
+    if !merge.is_empty() { o["neutral_twophase_nogkr"] = Value::Object(merge); }
     if let Some(m) = mem1 { o["neutral_mem1"] = m; }
     o
 }
@@ -378,7 +409,7 @@ pub fn main(o: &Opts) {
         // `--opt mergewithout=GroupKeyReduction,PackedGroupKeys,ALL --opt n=5`: the TwoPhase merge over the real partial rows without a rule
         if let Some(m) = o.get("mergewithout") {
             let env = env_for(&case).expect("env");
-            for rule in m.split(',') { let v = run_merge_without(&env, sql, o.get_usize("n", 5), rule); println!("merge without {rule}: rows={:?} {}", v["ok"].as_array().map(|a| a.len()), v.to_string().chars().take(o.get_usize("show", 200)).collect::<String>()); }
+            for rule in m.split(',') { let v = run_two_phase_without(&env, sql, o.get_usize("n", 5), rule); println!("merge without {rule}: rows={:?} {}", v["ok"].as_array().map(|a| a.len()), v.to_string().chars().take(o.get_usize("show", 200)).collect::<String>()); }
         }
         // `--opt memcfgs=mem1,memb`: the same statement through sqlgen's single-node executors (in-memory layouts)
         if let Some(m) = o.get("memcfgs") {
